@@ -71,7 +71,10 @@ Sizeofs  == {<<L("sizeof(", 7), t, L(")", 1)>> : t \in {TY3, TY6}} \cup {<<L("si
 E1small  == Atoms \cup {<<V3, L("[", 1), V1, L("]", 1)>>, <<V3, L("->", 2), V3>>, <<F4, L("(", 1), V1, L(")", 1)>>,
                         <<L("-", 1), V1>>, <<L("!", 1), V3>>, <<L("*", 1), V3>>, <<L("&", 1), V1>>,
                         <<L("(", 1), V1, L(" + ", 3), N1, L(")", 1)>>}
-E1       == Postfix \cup Unary(Atoms \cup {<<V3, L("[", 1), V1, L("]", 1)>>, <<F4, L("(", 1), V1, L(")", 1)>>})
+IncDec   == {<<L("++", 2), V1>>, <<L("--", 2), V3>>, <<V1, L("++", 2)>>, <<V3, L("--", 2)>>,
+             <<L("(", 1), L("*", 1), V3, L(")", 1), L("++", 2)>>}
+UnaryParen == {<<o, L("(", 1), V1, L(" + ", 3), N1, L(")", 1)>> : o \in {L("-", 1), L("!", 1), L("~", 1), L("*", 1)}}
+E1       == IncDec \cup UnaryParen \cup Postfix \cup Unary(Atoms \cup {<<V3, L("[", 1), V1, L("]", 1)>>, <<F4, L("(", 1), V1, L(")", 1)>>})
             \cup Casts({<<V1>>, <<V3>>, <<N1>>, <<F4, L("(", 1), V1, L(")", 1)>>}) \cup Sizeofs
 
 (* ---- binary --------------------------------------------------------------- *)
